@@ -286,6 +286,21 @@ def watch_mobility(w1, tags, key="degenerate_mobility", limit=1e12):
     w1._compute_face_weight = wrapped
 
 
+def anderson_at_noise_floor(o, info):
+    """True if an Anderson-accelerated run reached the rounding level (an increment of its history at or
+    below 1e-13 of the largest one) and kept iterating: the least-squares problem of the mixing is then
+    numerically singular (differences of iterates that agree to the last bits)."""
+    if not o.get("aa_depth"):
+        return False
+    hist = (info or {}).get("convergence_history") or {}
+    inc = np.asarray(hist.get("flux_increment" if o["method"] == "newton" else "aux_force_increment", []), dtype=float)
+    inc = inc[np.isfinite(inc)]
+    if len(inc) < 3:
+        return False
+    k = int(np.argmin(inc))
+    return bool(inc.max() > 0 and inc[k] <= 1e-13 * inc.max() and k < len(inc) - 1)
+
+
 class InjectedFault(RuntimeError):
     pass
 
